@@ -28,6 +28,7 @@ def habutax_modules():
         H['top'] = importlib.import_module('habutax')
     finally:
         sys.path.pop(0)
+    common.install_watchdog(H['solver'])
     return H
 
 
@@ -221,6 +222,15 @@ def special_scenarios(years=common.YEARS):
         ncs = dict(nc, additions_to_agi='yes', deductions_from_agi='yes', interest_income_not_nc='750.00', interest_us_obligations='120.00',
                    bonus_depreciation='no', section_179_expense='no', nc_net_operating_loss='no', state_local_refund='0.00')
         out.append((y, ['1040', 'nc_d-400'], 9008, dict(base, status='Single', wages=60000, overrides=ncs)))
+        # an IRA distribution (copy 0) and a pension (copy 1): the two kinds of Form 1099-R side by side, IRA first
+        mix = dict(ira)
+        mix.update({'number_1099-r': '2', '1099-r:1.belongs_to': 'taxpayer', '1099-r:1.box_1': '11000.00', '1099-r:1.box_2a': '11000.00',
+                    '1099-r:1.box_2b_taxable_not_determined': 'no', '1099-r:1.box_2b_total_distribution': 'no',
+                    '1099-r:1.box_7_ira_sep_simple': 'no', '1099-r:1.box_4': '150.00', 'pensions_annuities': 'no'})
+        out.append((y, ['1040'], 9010, dict(base, status='Single', wages=40000, overrides=mix)))
+        # North Carolina, married filing jointly with three children who qualify for the child tax credit (child deduction for several children)
+        nck = dict(nc, number_under_18='3', number_under_6='0')
+        out.append((y, ['1040', 'nc_d-400'], 9009, dict(base, status='MarriedFilingJointly', wages=95000, n_dep=3, n_u17=3, overrides=nck)))
     return out
 
 
@@ -244,5 +254,8 @@ def scenario_stream(rng, n, years=common.YEARS):
         forms = ['1040']
         if rng.random() < 0.25:
             forms.append('nc_d-400')
+            # the N.C. Schedule A line 1 (`sum([...])` over Forms 1098) is an int when there is no Form 1098 and the return aborts with a
+            # TypeError (observed defect, DESIGN 13.5): keep N.C. returns solvable so that they exercise the N.C. lines
+            prof['n_other'] = {'number_1098': 1 + (k % 2)}
         out.append((year, forms, rng.randrange(1 << 30), prof))
     return out
